@@ -99,7 +99,7 @@ type vfC14Episode struct {
 	ServerTmux bool         `json:"server_in_tmux"` // the server itself runs inside tmux normal mode
 	Tunnel     bool         `json:"tunnel"`
 	GiveUp     bool         `json:"client_gives_up_on_the_tunnel,omitempty"` // the relay's answer reaches the client after its grace period
-	Kind       string       `json:"kind"` // success, cancel, server-fail, client-fail, ctrl-c
+	Kind       string       `json:"kind"`                                    // success, cancel, server-fail, client-fail, ctrl-c
 	Dir        string       `json:"dir"`
 	Caps       vfClientCaps `json:"caps"`
 	Args       baseArgs     `json:"-"`
